@@ -170,7 +170,7 @@ def run(prop, tier, seed, verdict):
                                   {"correspondence": "Hidi.loadAll/findConfig (lean/Hidi/Loader.lean) vs config.LoadDeviceConfigs/FindConfig",
                                    "ops": g, "model_ops": m, "implementation": gl[k] if k < len(gl) else None, "model": ml[k] if k < len(ml) else None}, False)
     return {
-        "evaluations": n, "distinct_nontrivial": len(combos),
+        "evaluations": n + nfind, "distinct_nontrivial": len(combos),
         "rule": "hidi-config trees: per directory each of {exact-id file, default file, other-id file, duplicate-id file, nested file} present or absent, "
                 "decorated with broken .toml files, non-TOML names with valid content, empty directories, directories named *.toml, upper-case suffixes, "
                 "8 %% of directories missing; FindConfig for 4 identifiers x 4 device types; distinct_nontrivial = distinct (loaded maps, device type, identifier) combinations queried",
